@@ -11,7 +11,7 @@
    else (in particular never a different payload), for every mutation and both contexts. *)
 EXTENDS Naturals, Sequences, FiniteSets, TLC, Json, SequencesExt, IOUtils
 Base == {"single", "twoOfTwo", "oneOfTwoKeys", "threeGrants"}
-Mut == {"none", "thrUp", "thrDown", "swapGrants", "swapKpIdx", "grantCtFlip", "grantCtTrunc", "dropGrant", "dupGrant",
+Mut == {"none", "thrUp", "thrDown", "swapGrants", "swapKpIdx", "grantCtFlip", "grantCtTrunc", "dropGrant", "dupGrant", "kpIdxAppend", "kpIdxDrop", "grantCtsDrop", "grantCtsAppend", "kpIdxHuge",
         "envId", "ctxHash", "payloadFlip", "payloadTrunc", "payloadEmpty", "pemSwap", "wireTrunc", "wireFlip", "wireGarbage"}
 Vctx == {"same", "other"}
 Cases == [base : Base, mut : Mut, vctx : Vctx]
